@@ -731,9 +731,5 @@ func compassRecordHistory(r *rand.Rand, i int) ([]gstep, string) {
 		h.Orch = j
 		ops = append(ops, h)
 	}
-	if r.Intn(2) == 0 { // the empty one arrives in the middle as well
-		ops[0], ops[2] = ops[2], ops[0]
-		ops = append([]spec{a}, ops[1:]...)
-	}
 	return subs(ops), name
 }
